@@ -24,7 +24,7 @@ struct Sub {
 };
 struct Sub2 { int a_rather_long_parameter_name; int x; Sub2() : a_rather_long_parameter_name(0), x(0) {} static const rtosc::Ports ports; };
 struct Deep { int a_parameter_with_a_name_that_is_just_as_unreasonably_long_as_its_parent_s; Deep() : a_parameter_with_a_name_that_is_just_as_unreasonably_long_as_its_parent_s(0) {} static const rtosc::Ports ports; };
-struct Odd { int pi_min, pi_max; float pf_min, pf_max; int ai_min[3]; float af_max[3]; int po_max; int po_pre; int ao_pre[3]; float volume; int vol; char pc_r, pc_r2; short ps16; signed char pc200; short as16[3]; int cut_i, pi_big, pi_imax; Deep a_sub_tree_with_a_name_that_is_much_longer_than_anyone_would_type_by_hand_0123456789; Odd() { memset((void *)this, 0, sizeof *this); pc_r2 = 1; cut_i = 20; } static const rtosc::Ports ports; };
+struct Odd { int pi_min, pi_max; float pf_min, pf_max; int ai_min[3]; float af_max[3]; int po_max; int po_pre; int ao_pre[3]; float volume; int vol; char pc_r, pc_r2; short ps16; signed char pc200; short as16[3]; int cut_i, pi_big, pi_imax, pi_narrow; Deep a_sub_tree_with_a_name_that_is_much_longer_than_anyone_would_type_by_hand_0123456789; Odd() { memset((void *)this, 0, sizeof *this); pc_r2 = 1; cut_i = 20; pi_narrow = 2000000000; } static const rtosc::Ports ports; };
 struct App {
     char pc; int pi; int pi_nb; int pi_neg; int pi_frac;
     float pf; float pf_log; float pf_nb; float pf_unit;
@@ -34,7 +34,7 @@ struct App {
     Odd odd;
     Sub sub; Sub subs[3]; Sub *psub; Sub subs12[12]; Sub2 sub2s[12];
     Sub psub_store;
-    App() { memset((void *)this, 0, sizeof *this); psub = &psub_store; pi_neg = -20; pf_log = 1.0f; odd.pc_r2 = 1; odd.cut_i = 20; }   // every field starts inside its declared range
+    App() { memset((void *)this, 0, sizeof *this); psub = &psub_store; pi_neg = -20; pf_log = 1.0f; odd.pc_r2 = 1; odd.cut_i = 20; odd.pi_narrow = 2000000000; }   // every field starts inside its declared range
     static const rtosc::Ports ports;
 };
 
@@ -57,6 +57,7 @@ inline const rtosc::Ports Odd::ports = {
     rParamI(cut_i, rLog(20, 20000), "int param with a logarithmic scale"),
     rParamI(pi_big, rLinear(0, 16777219), "int param whose upper bound is no float"),
     rParamI(pi_imax, rLinear(0, 2147483647), "int param up to INT_MAX"),
+    rParamI(pi_narrow, rLinear(2000000000, 2000000100), "int param whose range is narrower than a float's resolution there"),
     rRecur(a_sub_tree_with_a_name_that_is_much_longer_than_anyone_would_type_by_hand_0123456789, "sub tree with a very long name"),
     rParamI(pi_min, rMap(min, 0), "int param with a lower bound only"),
     rParamI(pi_max, rMap(max, 10), "int param with an upper bound only"),
@@ -213,6 +214,7 @@ inline const std::vector<Leaf> &leaves() {
     L.push_back({"/odd/pc_r2", K_PARAM_C, true, true, "1", "100", {}, 0, [](App &a) { return vi(a.odd.pc_r2); }});
     { Leaf l{"/odd/cut_i", K_PARAM_I, true, true, "20", "20000", {}, 0, [](App &a) { return vi(a.odd.cut_i); }}; l.log_scale = true; L.push_back(l); }
     L.push_back({"/odd/pi_big", K_PARAM_I, true, true, "0", "16777219", {}, 0, [](App &a) { return vi(a.odd.pi_big); }});
+    L.push_back({"/odd/pi_narrow", K_PARAM_I, true, true, "2000000000", "2000000100", {}, 0, [](App &a) { return vi(a.odd.pi_narrow); }});
     L.push_back({"/odd/pi_imax", K_PARAM_I, true, true, "0", "2147483647", {}, 0, [](App &a) { return vi(a.odd.pi_imax); }});
     L.push_back({"/odd/a_sub_tree_with_a_name_that_is_much_longer_than_anyone_would_type_by_hand_0123456789/a_parameter_with_a_name_that_is_just_as_unreasonably_long_as_its_parent_s", K_PARAM_I, true, true, "0", "100", {}, 0, [](App &a) { return vi(a.odd.a_sub_tree_with_a_name_that_is_much_longer_than_anyone_would_type_by_hand_0123456789.a_parameter_with_a_name_that_is_just_as_unreasonably_long_as_its_parent_s); }});
     { Leaf l{"/odd/ps16", K_PARAM_I, true, true, "0", "40000", {}, 0, [](App &a) { return vi(a.odd.ps16); }}; l.smin = SHRT_MIN; l.smax = SHRT_MAX; L.push_back(l); }
